@@ -44,6 +44,35 @@ fn compare_values_for_range(a: &Value, b: &Value) -> Option<CmpOrdering> {
     }
 }
 
+/// Returns the key under which `value` is filed in a property index, or `None`
+/// if no stored value can ever equal it.
+///
+/// Index lookups have to agree with the scan path, which compares with `Value`'s
+/// own equality: `0.0 == -0.0` and NaN equals nothing. [`HashableValue`] compares
+/// floats by bit pattern, so zeros are filed under `+0.0` and a value containing
+/// NaN gets no key.
+fn property_index_key(value: &Value) -> Option<HashableValue> {
+    fn canonical(value: &Value) -> Option<Value> {
+        Some(match value {
+            Value::Float64(f) if f.is_nan() => return None,
+            Value::Float64(f) if *f == 0.0 => Value::Float64(0.0),
+            Value::Vector(v) if v.iter().any(|f| f.is_nan()) => return None,
+            Value::Vector(v) => {
+                Value::Vector(v.iter().map(|f| if *f == 0.0 { 0.0 } else { *f }).collect())
+            }
+            Value::List(items) => {
+                Value::List(items.iter().map(canonical).collect::<Option<Vec<_>>>()?.into())
+            }
+            Value::Map(map) => {
+                let entries = map.iter().map(|(k, v)| Some((k.clone(), canonical(v)?)));
+                Value::Map(std::sync::Arc::new(entries.collect::<Option<_>>()?))
+            }
+            other => other.clone(),
+        })
+    }
+    canonical(value).map(HashableValue::new)
+}
+
 /// Checks if a value is within a range.
 fn value_in_range(
     value: &Value,
@@ -1147,11 +1176,10 @@ impl LpgStore {
 
         for (i, (prop, value)) in conditions.iter().enumerate() {
             let key = PropertyKey::new(*prop);
-            let hv = HashableValue::new(value.clone());
 
             if let Some(index) = indexes.get(&key) {
-                let matches: Vec<NodeId> = index
-                    .get(&hv)
+                let matches: Vec<NodeId> = property_index_key(value)
+                    .and_then(|hv| index.get(&hv))
                     .map(|nodes| nodes.iter().copied().collect())
                     .unwrap_or_default();
 
@@ -1240,8 +1268,11 @@ impl LpgStore {
 
         // Scan all nodes to build the index
         for node_id in self.node_ids() {
-            if let Some(value) = self.node_properties.get(node_id, &key) {
-                let hv = HashableValue::new(value);
+            if let Some(hv) = self
+                .node_properties
+                .get(node_id, &key)
+                .and_then(|value| property_index_key(&value))
+            {
                 index.entry(hv).or_default().insert(node_id);
             }
         }
@@ -1304,12 +1335,11 @@ impl LpgStore {
     #[must_use]
     pub fn find_nodes_by_property(&self, property: &str, value: &Value) -> Vec<NodeId> {
         let key = PropertyKey::new(property);
-        let hv = HashableValue::new(value.clone());
 
         // Try indexed lookup first
         let indexes = self.property_indexes.read();
         if let Some(index) = indexes.get(&key) {
-            if let Some(nodes) = index.get(&hv) {
+            if let Some(nodes) = property_index_key(value).and_then(|hv| index.get(&hv)) {
                 return nodes.iter().copied().collect();
             }
             return Vec::new();
@@ -1332,8 +1362,11 @@ impl LpgStore {
         let indexes = self.property_indexes.read();
         if let Some(index) = indexes.get(key) {
             // Get old value to remove from index
-            if let Some(old_value) = self.node_properties.get(node_id, key) {
-                let old_hv = HashableValue::new(old_value);
+            if let Some(old_hv) = self
+                .node_properties
+                .get(node_id, key)
+                .and_then(|old_value| property_index_key(&old_value))
+            {
                 if let Some(mut nodes) = index.get_mut(&old_hv) {
                     nodes.remove(&node_id);
                     if nodes.is_empty() {
@@ -1344,11 +1377,12 @@ impl LpgStore {
             }
 
             // Add new value to index
-            let new_hv = HashableValue::new(new_value.clone());
-            index
-                .entry(new_hv)
-                .or_insert_with(FxHashSet::default)
-                .insert(node_id);
+            if let Some(new_hv) = property_index_key(new_value) {
+                index
+                    .entry(new_hv)
+                    .or_insert_with(FxHashSet::default)
+                    .insert(node_id);
+            }
         }
     }
 
@@ -1366,8 +1400,11 @@ impl LpgStore {
         let indexes = self.property_indexes.read();
         if let Some(index) = indexes.get(key) {
             // Get old value to remove from index
-            if let Some(old_value) = self.node_properties.get(node_id, key) {
-                let old_hv = HashableValue::new(old_value);
+            if let Some(old_hv) = self
+                .node_properties
+                .get(node_id, key)
+                .and_then(|old_value| property_index_key(&old_value))
+            {
                 if let Some(mut nodes) = index.get_mut(&old_hv) {
                     nodes.remove(&node_id);
                     if nodes.is_empty() {
